@@ -989,9 +989,14 @@ func compileType(ctx *blockCtx, t *ast.TypeSpec) {
 		return
 	}
 	if t.Assign != token.NoPos { // alias type
-		ctx.cb.AliasType(name, toType(ctx, t.Type))
+		ctx.cb.AliasType(name, toType(ctx, t.Type), t.Name)
 	} else {
-		ctx.cb.NewType(name).InitType(ctx.pkg, toType(ctx, t.Type))
+		ctx.cb.NewType(name, t.Name).InitType(ctx.pkg, toType(ctx, t.Type))
+	}
+	if rec := ctx.recorder(); rec != nil {
+		if o := ctx.cb.Scope().Lookup(name); o != nil {
+			rec.Def(t.Name, o)
+		}
 	}
 }
 
